@@ -153,6 +153,9 @@ ConsumeClauses(ev) ==
     C({"C10", "C06"}, "DeliveredAtMostOncePerIdentity",
         ~\E i \in DOMAIN consumed : consumed[i].base = ev.base /\ consumed[i].app = ev.app),
     C({"C12"}, "NeverDeliveredWithUnverifiableSecurityBlock", \A id \in whole : ~hist[id].secbad),
+    \* a bundle re-assembled here from fragments of a bundle whose security blocks do not verify
+    C({"C12"}, "NeverDeliveredReassembledWithUnverifiableSecurityBlock",
+        (whole = {} /\ frags # {}) => \A id \in frags : ~hist[id].secbad),
     C({"C12"}, "DeliveredPayloadIsTheOriginalPlaintext",
         \A id \in whole : hist[id].plain # "" => ev.pay = hist[id].plain),
     C({"C12"}, "AcceptedSecurityBlocksRemoved",
@@ -251,7 +254,11 @@ FinalClauses ==
         dest == hist[CHOOSE id \in frags : TRUE].b.dest
     IN {
       C({"C06"}, "ReassembledBundleDeliveredExactlyOnce",
-          (complete /\ dest = scen.probe /\ base \in DOMAIN firstfrag)
+          (complete /\ dest = scen.probe /\ base \in DOMAIN firstfrag /\ \A id \in frags : ~hist[id].secbad)
+             => Cardinality({i \in ConsumedOf(base) : consumed[i].app = "probe"}) = 1),
+      \* (a bundle whose security blocks all verify is delivered, also when it arrived as fragments)
+      C({"C12"}, "VerifiableReassembledBundleIsDelivered",
+          (complete /\ dest = scen.probe /\ base \in DOMAIN firstfrag /\ \A id \in frags : hist[id].sec = "good")
              => Cardinality({i \in ConsumedOf(base) : consumed[i].app = "probe"}) = 1),
       C({"C06"}, "NothingDeliveredFromIncompleteSet", ~complete => ConsumedOf(base) = {})
     } : base \in DOMAIN cov }
